@@ -274,6 +274,8 @@ class C04(Spec):
     tags = "faketime"
     driver = "drv_cache"
     monitor = True
+    # faketime + many Ps can live-lock inside the Go runtime's GC; the harness itself runs scenarios with 1 P (4 in marked phases)
+    harness_env = {"GOMAXPROCS": "2"}
     shrink_sep = " ; "
     rule = ("one case = one timed scenario on a fresh cache under the Go fake clock (calls of Load/Get2/Set/Future.Get2 at scripted "
             "virtual instants, loaders with scripted durations/results; all ten key kinds; P,J,En,Ee varied), or one "
